@@ -37,6 +37,8 @@ import (
 	"regexp"
 	"strconv"
 	"strings"
+	"unicode"
+	"unicode/utf8"
 
 	"golang.org/x/net/html"
 
@@ -47,7 +49,6 @@ var (
 	dataAttribute             = regexp.MustCompile("^data-.+")
 	dataAttributeXMLPrefix    = regexp.MustCompile("^xml.+")
 	dataAttributeInvalidChars = regexp.MustCompile("[A-Z;]+")
-	cssUnicodeChar            = regexp.MustCompile(`\\[0-9a-f]{1,6} ?`)
 	dataURIbase64Prefix       = regexp.MustCompile(`^data:[^,]*;base64,`)
 )
 
@@ -1038,34 +1039,51 @@ func isDataAttribute(val string) bool {
 }
 
 func removeUnicode(value string) string {
-	substitutedValue := value
-	currentLoc := cssUnicodeChar.FindStringIndex(substitutedValue)
-	for currentLoc != nil {
-
-		character := substitutedValue[currentLoc[0]+1 : currentLoc[1]]
-		character = strings.TrimSpace(character)
-		if len(character) < 4 {
-			character = strings.Repeat("0", 4-len(character)) + character
-		} else {
-			for len(character) > 4 {
-				if character[0] != '0' {
-					character = ""
-					break
-				} else {
-					character = character[1:]
-				}
+	// Decode CSS hexadecimal escapes in a single left-to-right pass, the way a
+	// browser does: a backslash, one to six hex digits and one optional
+	// whitespace character stand for that code point (U+FFFD if it is zero, a
+	// surrogate or beyond U+10FFFF). Decoded characters are kept exactly as
+	// they are and are never read again as part of a later escape.
+	var b strings.Builder
+	for i := 0; i < len(value); {
+		if value[i] != '\\' {
+			b.WriteByte(value[i])
+			i++
+			continue
+		}
+		j := i + 1
+		for j < len(value) && j-i <= 6 && isCSSHexDigit(value[j]) {
+			j++
+		}
+		if j == i+1 {
+			// Not a hexadecimal escape: keep the backslash and the character
+			// it escapes together so that neither starts another escape.
+			b.WriteByte(value[i])
+			i++
+			if i < len(value) {
+				_, size := utf8.DecodeRuneInString(value[i:])
+				b.WriteString(value[i : i+size])
+				i += size
 			}
+			continue
 		}
-		character = "\\u" + character
-		translatedChar, err := strconv.Unquote(`"` + character + `"`)
-		translatedChar = strings.TrimSpace(translatedChar)
-		if err != nil {
-			return ""
+		codePoint, _ := strconv.ParseUint(value[i+1:j], 16, 32)
+		if codePoint == 0 || codePoint > unicode.MaxRune ||
+			(codePoint >= 0xD800 && codePoint <= 0xDFFF) {
+			codePoint = unicode.ReplacementChar
 		}
-		substitutedValue = substitutedValue[0:currentLoc[0]] + translatedChar + substitutedValue[currentLoc[1]:]
-		currentLoc = cssUnicodeChar.FindStringIndex(substitutedValue)
+		b.WriteRune(rune(codePoint))
+		if j < len(value) && (value[j] == ' ' || value[j] == '\t' ||
+			value[j] == '\n' || value[j] == '\f') {
+			j++
+		}
+		i = j
 	}
-	return substitutedValue
+	return b.String()
+}
+
+func isCSSHexDigit(c byte) bool {
+	return (c >= '0' && c <= '9') || (c >= 'a' && c <= 'f') || (c >= 'A' && c <= 'F')
 }
 
 func (p *Policy) matchRegex(elementName string) (map[string][]attrPolicy, bool) {
